@@ -14,6 +14,8 @@ import (
 	"verifharness/drv/fwd"
 	"verifharness/drv/hb"
 	"verifharness/drv/pk"
+	"verifharness/drv/rb"
+	"verifharness/drv/rbs"
 	"verifharness/drv/re"
 	"verifharness/drv/rl"
 	"verifharness/drv/rp"
@@ -67,6 +69,12 @@ func main() {
 		os.Exit(cfg.DumpMain(os.Args[2:]))
 	case "rp":
 		os.Exit(rp.Main(os.Args[2:]))
+	case "rb":
+		os.Exit(rb.Main(os.Args[2:]))
+	case "rbs":
+		os.Exit(rbs.Main(os.Args[2:]))
+	case "rbs-agent":
+		os.Exit(rbs.AgentMain(os.Args[2:]))
 	case "hb":
 		os.Exit(hb.Main(os.Args[2:]))
 	default:
